@@ -546,7 +546,7 @@ theorem CtxF.after {Γ : List LCtx} {sc : Nat} {s s' : St} {rs rs' : Ref.St} (h 
     by rw [hfr.loops γ.id h1]; exact h4, by rw [hfr.linear]; exact h5, Nat.lt_of_lt_of_le h6 hfr.scLen,
     ⟨k, hch.congr hext.1 hflags, ?_⟩, h8, ⟨X ++ G, by rw [hX, hG, List.append_assoc], (hgood γ hγ).append hGg⟩⟩
   rw [hfr.curfunc]
-  exact hfc.transfer s.scopes.length hfr.flags hext.1 hk (fun e he => Nat.lt_trans (hch.k_lt e he) h6)
+  exact hfc.transfer s.scopes.length hfr.flags hext.1 hk (Nat.le_refl _) hfr.scLen (fun e he => Nat.lt_trans (hch.k_lt e he) h6)
     (takeToBoundary_chain hch hflags)
 
 /-- `Frame` without the linear stack (a `break`/`continue` pops scopes) -/
@@ -580,7 +580,7 @@ theorem RelF.relin {m : Nat → Nat} {s s' : St} {rs : Ref.St} {env env' : Nat} 
     (hsc : s'.scopes = s.scopes) (hfns : s'.fns = s.fns) (hcur : s'.curfunc = s.curfunc) (hheap : s'.heap = s.heap)
     (htr : s'.trace = s.trace) (hb : s'.linear.getLast? = some (some 0))
     (hch : ∃ k, ChainF (isFnScope s) rs.frames k env' s'.linear ∧ FnChainF s rs.frames s'.linear k s.curfunc)
-    (hloops : s'.loops = s.loops := by rfl) : RelF m s' rs env' := by
+    (hloops : s'.loops = s.loops := by rfl) (hlz : s'.lazies = s.lazies := by rfl) : RelF m s' rs env' := by
   have hso : ∀ i, scopeOf s' i = scopeOf s i := fun i => by unfold scopeOf; rw [hsc]
   have hfl : isFnScope s' = isFnScope s := by funext i; unfold isFnScope; rw [hso]
   have hk : FnsKeep s s' := FnsKeep.of_fns_eq hfns (LoopsExt.of_eq hloops)
@@ -594,9 +594,11 @@ theorem RelF.relin {m : Nat → Nat} {s s' : St} {rs : Ref.St} {env env' : Nat} 
       rw [hfl] at hi; obtain ⟨t, h1, h2⟩ := h.fscopes i hi
       exact ⟨t, by rw [hso]; exact h1, by unfold fnOf; rw [hfns]; exact h2⟩,
     by rw [hheap]; exact h.heap, by rw [htr]; exact h.trace, h.globals,
-    fun i x v hv => ValIn.mono (h.vok i x v (by rw [← hso]; exact hv)) hgood, by rw [hheap]; exact HeapIn.mono h.hok hgood⟩
+    fun i x v hv => ValIn.mono (h.vok i x v (by rw [← hso]; exact hv)) hgood, by rw [hheap]; exact HeapIn.mono h.hok hgood,
+    h.lz.mono hk (by rw [hsc]; exact Nat.le_refl _) (fun i _ => by rw [hfl]) (RExt.refl rs) (fun _ _ => rfl) hlz rfl⟩
   rw [hcur]
   exact hfc.transfer (s := s) (s' := s') rs.frames.length (fun i _ => by rw [hfl]) (fun i fr hf => ⟨fr, hf, rfl⟩) hk
+    (Nat.le_of_eq h.len) (by rw [hsc]; exact Nat.le_refl _)
     (fun e he => Nat.lt_trans (hc.k_lt e he) hc.lt) (by rw [hfl])
 
 /-! ## The simulation statement with non-local exits -/
@@ -803,7 +805,7 @@ theorem CtxF.after_nl {Γ : List LCtx} {sc sc' : Nat} {s s' : St} {rs rs' : Ref.
     Nat.lt_of_lt_of_le h6 hfr.scLen,
     ⟨k, hch.congr hext.1 hflags, ?_⟩, h8, ⟨X ++ G, by rw [hX, hG, List.append_assoc], (hgood γ hγ).append hGg⟩⟩
   rw [hfr.curfunc]
-  exact hfc.transfer s.scopes.length hfr.flags hext.1 hk (fun e he => Nat.lt_trans (hch.k_lt e he) h6)
+  exact hfc.transfer s.scopes.length hfr.flags hext.1 hk (Nat.le_refl _) hfr.scLen (fun e he => Nat.lt_trans (hch.k_lt e he) h6)
     (takeToBoundary_chain hch hflags)
 
 theorem CtxF.pushScope {Γ : List LCtx} {sc : Nat} {s : St} {rs : Ref.St} {env : Nat} (h : CtxF Γ sc s rs) :
